@@ -303,4 +303,175 @@ theorem flushEntry_null_onesided (cfg : Cfg) (u₀ : List (OutPoint × UtxoEntry
       · rw [AL.get_set_ne _ _ hkk]
         exact R.special k' hk'
 
+/-! ### the end of the block -/
+
+theorem endState_utxo (cfg : Cfg) (blk : Block) (insOn : Bool) (bc : BlockCtx) :
+    (endState cfg blk insOn bc).1.utxo = bc.st.utxo := by
+  unfold endState
+  cases insOn <;> cases bc.lostRanges.isEmpty <;> rfl
+
+theorem isEmpty_eq_nil {α : Type} (l : List α) (h : l.isEmpty = true) : l = [] := by
+  cases l with
+  | nil => rfl
+  | cons a l => simp at h
+
+/-- the statistics and the null entry at the end of the block, in both runs -/
+theorem endState_sim (cfg : Cfg) (blk : Block) (bc : BlockCtx) (u1 : List (OutPoint × UtxoEntry))
+    (hlost : cfg.indexSats = true → bc.ins.lostSats = bc.st.lostSats + lenR bc.lostRanges)
+    (hnos : cfg.indexSats = false → bc.lostRanges = []) :
+    (endState cfg.base blk true (mkB cfg bc u1)).1 = stripW u1 (endState cfg blk true bc).1 ∧
+    (endState cfg.base blk true (mkB cfg bc u1)).2 = bc.ins.nullEntry ∧
+    ((endState cfg blk true bc).2 = bc.ins.nullEntry ∨
+      (cfg.indexSats = true ∧
+        (endState cfg blk true bc).2 =
+          some (UtxoEntry.merged (bc.ins.nullEntry.getD UtxoEntry.empty) ⟨0, bc.lostRanges, [], []⟩))) := by
+  have hbs : cfg.base.indexSats = false := rfl
+  have hl0 : (mkB cfg bc u1).lostRanges = [] := rfl
+  have hlen : (stripW u1 bc.st).entries.length = bc.st.entries.length := by simp [stripW]
+  unfold endState
+  simp only [if_true, hl0, List.isEmpty_nil, hbs, Bool.false_eq_true, if_false]
+  cases he : bc.lostRanges.isEmpty with
+  | true =>
+    have hnil := isEmpty_eq_nil _ he
+    rw [hnil] at hlost
+    simp only [lenR, Nat.add_zero] at hlost
+    simp only [if_true]
+    refine ⟨?_, rfl, Or.inl trivial⟩
+    cases hs : cfg.indexSats with
+    | false => simp [mkB, stripW, stripCtx]
+    | true => simp [mkB, stripW, stripCtx, hlost hs]
+  | false =>
+    simp only [Bool.false_eq_true, if_false]
+    have hs : cfg.indexSats = true := by
+      cases hs : cfg.indexSats with
+      | true => rfl
+      | false => rw [hnos hs] at he; simp at he
+    refine ⟨?_, rfl, Or.inr ⟨hs, trivial⟩⟩
+    simp only [hs, if_true, lostRare_snd]
+    simp [mkB, stripW, stripCtx, hlost hs]
+
+theorem flushCache_append (cfg : Cfg) (st : State) (a b : Cache) :
+    flushCache cfg st (a ++ b) = flushCache cfg (flushCache cfg st a) b := by
+  simp [flushCache, List.foldl_append]
+
+/-- the rows of the inscriptions already at the null outpoint are in place -/
+def NullRows (st : State) : Prop :=
+  ∀ e, AL.get st.utxo OutPoint.null = some e → ∀ p ∈ e.ins, AL.get st.seq2sp p.1 = some ⟨OutPoint.null, p.2⟩
+
+theorem specialOf_split (a b : Option UtxoEntry) : specialOf a b = specialOf a none ++ specialOf none b := by
+  cases a <;> cases b <;> rfl
+
+/-- one optional special entry: flushed in both runs with the same inscriptions, or only in the
+run with the sat index and without inscriptions -/
+def OptRel (st : State) (a b : Option UtxoEntry) : Prop :=
+  (a = none ∧ b = none) ∨ (∃ ea eb, a = some ea ∧ b = some eb ∧ ea.ins = eb.ins) ∨
+  (∃ ea, a = some ea ∧ b = none ∧ ea.ins = [] ∧ NullRows st)
+
+theorem flush_opt_null (cfg : Cfg) (u₀ : List (OutPoint × UtxoEntry)) (st : State) (a b : Option UtxoEntry)
+    (ho : OptRel st a b) (R : UtxoRel cfg st.utxo u₀) :
+    ∃ u₀', flushCache cfg.base (stripW u₀ st) (specialOf b none) =
+        stripW u₀' (flushCache cfg st (specialOf a none)) ∧
+      UtxoRel cfg (flushCache cfg st (specialOf a none)).utxo u₀' := by
+  rcases ho with ⟨rfl, rfl⟩ | ⟨ea, eb, rfl, rfl, hins⟩ | ⟨ea, rfl, rfl, hins, hrows⟩
+  · exact ⟨u₀, rfl, R⟩
+  · exact flushEntry_special_eq cfg u₀ st OutPoint.null ea eb (by decide) hins R
+  · obtain ⟨h1, h2⟩ := flushEntry_null_onesided cfg u₀ st ea hins R hrows
+    exact ⟨u₀, h1.symm, h2⟩
+
+theorem flush_opt_unbound (cfg : Cfg) (u₀ : List (OutPoint × UtxoEntry)) (st : State) (a : Option UtxoEntry)
+    (R : UtxoRel cfg st.utxo u₀) :
+    ∃ u₀', flushCache cfg.base (stripW u₀ st) (specialOf none a) =
+        stripW u₀' (flushCache cfg st (specialOf none a)) ∧
+      UtxoRel cfg (flushCache cfg st (specialOf none a)).utxo u₀' := by
+  cases a with
+  | none => exact ⟨u₀, rfl, R⟩
+  | some e => exact flushEntry_special_eq cfg u₀ st OutPoint.unbound e e (by decide) rfl R
+
+/-- hypothesis of the block theorem, used only with the sat index on: when the special entries
+of the block are committed, every inscription already listed at the null outpoint has its
+satpoint row there (an instance of C04's invariant "listed ⇒ row", at the mid-commit state) -/
+def NullRowsStable (cfg : Cfg) (st : State) (blk : Block) : Prop :=
+  ∀ bc, indexTxs cfg blk (insOnOf cfg blk) (blockOrder blk) (bc0A cfg st blk) = .ok bc →
+    NullRows (flushCache cfg (endState cfg blk (insOnOf cfg blk) bc).1 bc.cache)
+
+theorem blockOrder_shape (blk : Block) (h : BlockShape blk = true) : ∀ p ∈ blockOrder blk, TxShape p.1 p.2 = true := by
+  obtain ⟨cb, rest, htxs, hcb, hrest⟩ := shape_of_block blk h
+  rw [blockOrder_cons blk cb rest htxs]
+  intro p hp
+  rcases List.mem_append.mp hp with hp | hp
+  · exact (hrest p hp).2
+  · simp only [List.mem_singleton] at hp
+    subst hp; exact hcb
+
+/-- **stage (b): one block of `index_utxo_entries`** (inscriptions indexed in every block) -/
+theorem indexUtxoEntries_sim (cfg : Cfg) (hi : cfg.indexInscriptions = true) (hf : cfg.firstInscriptionHeight = 0)
+    (st : State) (u₀ : List (OutPoint × UtxoEntry)) (blk : Block) (st' : State) (evs : List Event)
+    (hshape : BlockShape blk = true) (R : UtxoRel cfg st.utxo u₀)
+    (hnull : cfg.indexSats = true → NullRowsStable cfg st blk)
+    (h : indexUtxoEntries cfg st blk = .ok (st', evs)) :
+    ∃ u₀', indexUtxoEntries cfg.base (stripW u₀ st) blk = .ok (stripW u₀' st', evs.map stripEvent) ∧
+      UtxoRel cfg st'.utxo u₀' := by
+  rw [indexUtxoEntries_eq] at h ⊢
+  have hon : insOnOf cfg blk = true := by simp [insOnOf, hf, hi]
+  have honb : insOnOf cfg.base blk = insOnOf cfg blk := rfl
+  have hb0 : bc0A cfg.base (stripW u₀ st) blk = mkB cfg (bc0A cfg st blk) u₀ := by
+    simp [bc0A, mkB, coinbaseInputsOf, Cfg.base, stripW, stripCtx, stripCache]
+  rw [honb, hb0]
+  cases hx : indexTxs cfg blk (insOnOf cfg blk) (blockOrder blk) (bc0A cfg st blk) with
+  | panic s => rw [hx] at h; simp at h
+  | err e => rw [hx] at h; simp at h
+  | ok bc =>
+    rw [hx] at h
+    simp only [Outcome.ok.injEq, Prod.mk.injEq] at h
+    obtain ⟨hst', hevs⟩ := h
+    obtain ⟨u1, h1, R1, c1⟩ := indexTxs_sim cfg blk _ (blockOrder blk) _ u₀ bc (blockOrder_shape blk hshape) R hx
+    have hcr : CacheReg bc.cache := c1 (by intro p hp; cases hp)
+    rw [h1]
+    dsimp only
+    -- accounting
+    have hx' := hx
+    rw [hon] at hx'
+    have hlost : cfg.indexSats = true → bc.ins.lostSats = bc.st.lostSats + lenR bc.lostRanges :=
+      fun hs => block_lostSats cfg hs blk st bc hshape hx'
+    have hnos : cfg.indexSats = false → bc.lostRanges = [] := fun hs =>
+      indexTxs_noSats cfg hs blk true (blockOrder blk) _ bc hx'
+    obtain ⟨E1, E2, E3⟩ := endState_sim cfg blk bc u1 hlost hnos
+    rw [hon]
+    rw [E1, E2]
+    have hmc : (mkB cfg bc u1).cache = stripCache cfg bc.cache := rfl
+    have hmu : (mkB cfg bc u1).ins.unboundEntry = bc.ins.unboundEntry := rfl
+    have hme : (mkB cfg bc u1).ins.events = bc.ins.events.map stripEvent := rfl
+    rw [hmc, hmu, hme, hevs]
+    rw [hon] at hst'
+    rw [← hst']
+    rw [specialOf_split (endState cfg blk true bc).2, specialOf_split bc.ins.nullEntry]
+    rw [flushCache_append, flushCache_append, flushCache_append, flushCache_append]
+    -- regular entries
+    have RE : UtxoRel cfg (endState cfg blk true bc).1.utxo u1 := by rw [endState_utxo]; exact R1
+    obtain ⟨u2, f2, R2⟩ := flushCache_reg cfg bc.cache _ u1 hcr RE
+    rw [f2]
+    -- the null entry
+    have hopt : OptRel (flushCache cfg (endState cfg blk true bc).1 bc.cache) (endState cfg blk true bc).2 bc.ins.nullEntry := by
+      rcases E3 with e3 | ⟨hs, e3⟩
+      · rw [e3]
+        cases hn : bc.ins.nullEntry with
+        | none => exact Or.inl ⟨rfl, rfl⟩
+        | some e => exact Or.inr (Or.inl ⟨e, e, rfl, rfl, rfl⟩)
+      · rw [e3]
+        cases hn : bc.ins.nullEntry with
+        | none =>
+          refine Or.inr (Or.inr ⟨_, rfl, rfl, ?_, ?_⟩)
+          · simp [UtxoEntry.merged, UtxoEntry.empty]
+          · have := hnull hs bc hx
+            rw [hon] at this
+            exact this
+        | some e =>
+          refine Or.inr (Or.inl ⟨_, e, rfl, rfl, ?_⟩)
+          simp [UtxoEntry.merged]
+    obtain ⟨u3, f3, R3⟩ := flush_opt_null cfg u2 _ _ _ hopt R2
+    rw [f3]
+    obtain ⟨u4, f4, R4⟩ := flush_opt_unbound cfg u3 _ bc.ins.unboundEntry R3
+    rw [f4]
+    exact ⟨u4, rfl, R4⟩
+
 end Ord.Index
